@@ -33,7 +33,11 @@ class CallMixin:
         return self.reg.contracts.get(name)
 
     def find_contract_for_ext(self, cls: str, attr: str):
+        cur = self.reg.contracts.get(self.verifying)
+        ov = getattr(cur, "call_overrides", None) if cur is not None else None
         for n in self.class_names_mro(cls):
+            if ov and f"{n}.{attr}" in ov:
+                return ov[f"{n}.{attr}"]
             c = self.reg.contracts.get(f"{n}.{attr}")
             if c is not None:
                 return c
